@@ -266,7 +266,7 @@ pub fn c02(t: &Trace, r: &mut Report) {
             "ticks" => {
                 // a run of k ticks without any other call in between, ending with the tick on which the phase changed
                 // (or after the requested number): the same duration rule, applied to the whole run at once
-                let k = t.obs[i].get(10).map(|x| num(x)).unwrap_or(0);
+                let k = t.obs[i].last().map(|x| num(x)).unwrap_or(0);
                 r.eval();
                 let ok = match p.st {
                     1 => matches!(o.st, 1 | 2),
